@@ -1,6 +1,7 @@
 import AbtemVerif.Model.Proto
 import AbtemVerif.Model.FloatProto
 import AbtemVerif.Model.Bloch
+import AbtemVerif.Gen.BlochF
 open AbtemVerif AbtemVerif.Proto AbtemVerif.StructFactor AbtemVerif.Bloch
 
 /- requests:
@@ -9,6 +10,7 @@ open AbtemVerif AbtemVerif.Proto AbtemVerif.StructFactor AbtemVerif.Bloch
                                                                        -> `ok re,im;…` (row-major) | `err <kind>`
      `dyn <n> <C row-major: float bits re,im;…> <v bits list> <M bits list> <wavelength bits> <t bits list> <i0>`
                                                                        -> `ok re,im;…` (thickness-major, float bits)
+     `mii <g_z> <wavelength>`                                         -> `ok <M>`   Float twin of calculate_M_matrix (k0 = 1/λ)
      `ens <width> <positions per member-row: a,b;c,d;…> <values per member-row>`  -> `ok <rows>`   eager ensemble assembly
    hkls: `a,b,c;a,b,c` (`~` = none); anything else -> `bad-op` -/
 def triple? {α} (f : String → Option α) (s : String) : Option (α × α × α) :=
@@ -57,6 +59,10 @@ def handle : List String → String
       let out := dynScatter C v.toArray m.toArray wl ts i0
       "ok " ++ ";".intercalate (out.flatten.map fun z => s!"{showFloatBits z.re},{showFloatBits z.im}")
     | _, _, _, _, _, _, _ => "bad-op"
+  | ["mii", gz, wl] =>
+    match parseFloatBits? gz, parseFloatBits? wl with
+    | some gz, some wl => s!"ok {showFloatBits (AbtemVerif.Gen.BlochF.mii gz (AbtemVerif.Gen.BlochF.k0Of wl))}"
+    | _, _ => "bad-op"
   | ["ens", w, pos, vals] =>
     match parseNat? w, parseListList? parseNat? pos, parseListList? parseInt? vals with
     | some w, some ps, some vs =>
